@@ -513,6 +513,10 @@ impl UnixStr {
 #[inline]
 #[expect(clippy::needless_range_loop)]
 fn buf_find(this_buf: &[u8], other_buf: &[u8]) -> Option<usize> {
+    if other_buf.is_empty() {
+        // The empty string is found at the start of any string
+        return Some(0);
+    }
     for i in 0..this_buf.len() {
         if this_buf[i] == other_buf[0] {
             let mut no_match = false;
